@@ -89,6 +89,27 @@ theorem included_once (mode : LineMode) (fs : FS) (dirs : List Str) (content : S
     (readStream mode fs dirs content).opened.Nodup :=
   (readStream_step mode fs dirs content).once
 
+/-- the guard keys on the RESOLVED path, not on the spelling: whatever an include line calls a file
+(`B`, `./B`, `/abs/dir/B`), once its resolved path is in the cache the file is skipped with one
+warning and nothing else changes -/
+theorem second_spelling_skipped (mode : LineMode) (fs : FS) (dirs : List Str) (k : Nat) (f fq : Str)
+    (c : Ctx) (h : resolve fs dirs f = some fq) (hc : fq ∈ c.cache) :
+    readFile mode fs dirs (k + 1) f c = { c with nwarn := c.nwarn + 1 } := by
+  simp [readFile, h, hc]
+
+/-- two spellings of the same file: a bare name and the same name written out with the directory of
+the command-line file resolve to the same path (so `included_once` — no RESOLVED path is opened
+twice — covers every spelling) -/
+theorem spellings_resolve_alike (fs : FS) (d f : Str) (hb : isExplicit f = false)
+    (he : isExplicit (d ++ '/' :: f) = true) (hr : canRead fs (d ++ '/' :: f) = true)
+    (hlen : (d ++ '/' :: f).length < PATHBUF - 1) :
+    resolve fs [d] f = some (d ++ '/' :: f) ∧ resolve fs [d] (d ++ '/' :: f) = some (d ++ '/' :: f) := by
+  constructor
+  · have : ¬ (d ++ '/' :: f).length ≥ PATHBUF := by simp only [PATHBUF] at hlen ⊢; omega
+    simp only [resolve, hb, Bool.false_eq_true, if_false, pathLookup, this, hr, if_true]
+  · simp only [resolve, he, if_true]
+    rw [List.take_of_length_le (by omega)]
+
 /-- ... and what was opened is exactly what went into the include cache by way of a successful open -/
 theorem opened_in_cache (mode : LineMode) (fs : FS) (dirs : List Str) (content : Str) :
     ∀ x ∈ (readStream mode fs dirs content).opened, x ∈ (readStream mode fs dirs content).cache :=
